@@ -194,6 +194,7 @@ async def run_case(nworkers, plan_, nids, counters, seed):
     viols, nontrivial = [], []
     links, storages, subs = [], [rig.storage], []
     server = None
+    restore = []
     try:
         sport = free_port()
         server = notifier.NotifyServer(port=sport)
@@ -201,6 +202,23 @@ async def run_case(nworkers, plan_, nids, counters, seed):
         await asyncio.sleep(0.05)
         for w in range(1, nworkers):
             storages.append(await rig.make_storage(create_schema=False))
+        if seed % 2 == 0:
+            # slow commits (a busy disk): the commit is already a suspension point of the accepting worker - it is
+            # stretched by a few loop turns / milliseconds; what a worker announces must be there when the others look
+            import aiosqlite
+
+            rr = random.Random(seed + 5)
+            orig_commit = aiosqlite.Connection.commit
+
+            async def slow_commit(self_):
+                d = rr.choice([0, 0, 0.002, 0.01])
+                if d:
+                    counters["slow_commits"] = counters.get("slow_commits", 0) + 1
+                    await asyncio.sleep(d)
+                return await orig_commit(self_)
+
+            aiosqlite.Connection.commit = slow_commit
+            restore.append(lambda: setattr(aiosqlite.Connection, "commit", orig_commit))
         reset_worker = None
         early_ids = set()
         logs = []
@@ -340,6 +358,8 @@ async def run_case(nworkers, plan_, nids, counters, seed):
                     viols.append({"key": "subscriber-push/%s/%s%s" % ("missed" if p == 0 else "duplicate", "after-peer-reset" if reset_worker is not None else plan_[0], kclass(kind)),
                                   "msg": "subscriber on worker %d got event %s (origin %d) %d times" % (w, eid[:10], origin, p), "replay": rp})
     finally:
+        for fn in restore:
+            fn()
         for l in links:
             await l.close()
         for st in storages[1:]:
